@@ -17,3 +17,285 @@ pub fn ip_filters() -> (
         Box::new(crate::kbucket::filter::IpBucketFilter),
     )
 }
+
+// ------------------------------------------------------------------------------------------
+// Handler over a virtual socket (H1/H2) and the packet / session crafting toolkit (H3).
+// ------------------------------------------------------------------------------------------
+pub use crate::handler::{HandlerIn, HandlerOut, WhoAreYouRef};
+pub use crate::rpc::{Message, Request, RequestBody, Response, ResponseBody};
+
+use crate::{
+    handler::{Challenge, Handler, NodeAddress, NodeContact},
+    handler::VerifSession as Session,
+    packet::{ChallengeData, MessageNonce, Packet, PacketHeader, PacketKind, ProtocolIdentity},
+    socket::{
+        recv::{InboundPacket, RecvPacket, UnrecognizedFrame},
+        send::OutboundPacket,
+    },
+    Config, Enr,
+};
+use enr::{CombinedKey, NodeId};
+use parking_lot::{Mutex, RwLock};
+use std::{collections::HashMap, convert::TryFrom, net::SocketAddr, sync::Arc, time::Duration};
+use tokio::sync::{mpsc, oneshot};
+
+/// Control commands understood by a handler in a verification build.
+#[derive(Debug, Clone)]
+pub enum HandlerCmd {
+    /// Makes every session `d` older (the session cache reads `std::time::Instant`).
+    AgeSessions(Duration),
+    /// Writes a snapshot of the handler's bookkeeping into the slot.
+    Snapshot(Arc<Mutex<Option<HandlerSnapshot>>>),
+}
+
+impl PartialEq for HandlerCmd {
+    fn eq(&self, _: &Self) -> bool {
+        false
+    }
+}
+
+/// The handler's bookkeeping (used for conformance checking and debugging, never as an oracle).
+#[derive(Debug, Clone, Default)]
+pub struct HandlerSnapshot {
+    /// Sessions from least to most recently used, with the time since their last use.
+    pub sessions: Vec<(NodeAddress, Duration)>,
+    pub challenges: Vec<NodeAddress>,
+    /// (address, request id, internal, handshake_sent, retries, initiating_session)
+    pub active: Vec<(NodeAddress, crate::RequestId, bool, bool, u8, bool)>,
+    pub nonce_mappings: usize,
+    pub pending: Vec<(NodeAddress, usize)>,
+}
+
+/// A real `Handler` running on the current tokio runtime, wired to in-memory channels.
+pub struct VirtualHandler {
+    pub to_handler: mpsc::UnboundedSender<HandlerIn>,
+    pub from_handler: mpsc::Receiver<HandlerOut>,
+    pub expected: Arc<RwLock<HashMap<SocketAddr, usize>>>,
+    pub exit: Option<oneshot::Sender<()>>,
+    wire_out: mpsc::Receiver<OutboundPacket>,
+    wire_in: mpsc::Sender<RecvPacket>,
+    local_id: NodeId,
+    protocol_identity: ProtocolIdentity,
+}
+
+/// Spawns the handler's real main loop as a task of the current runtime.
+pub fn spawn_handler(
+    enr: Arc<RwLock<Enr>>,
+    key: Arc<RwLock<CombinedKey>>,
+    config: Config,
+    listen_sockets: Vec<SocketAddr>,
+) -> VirtualHandler {
+    let local_id = enr.read().node_id();
+    let protocol_identity = config.protocol_identity;
+    let (handler, exit, to_handler, from_handler, wire_out, wire_in, expected) =
+        Handler::verif_new(enr, key, config, listen_sockets, 4096);
+    tokio::spawn(handler.verif_run());
+    VirtualHandler {
+        to_handler,
+        from_handler,
+        expected,
+        exit: Some(exit),
+        wire_out,
+        wire_in,
+        local_id,
+        protocol_identity,
+    }
+}
+
+impl VirtualHandler {
+    /// Delivers a raw datagram as the receive task does after the packet filter
+    /// (`RecvHandler::handle_inbound`): decode with the local id, then `Inbound` or
+    /// `UnrecognizedFrame`.
+    pub async fn inject_datagram(&self, src_address: SocketAddr, data: &[u8]) {
+        let pkt = match Packet::decode(&self.local_id, self.protocol_identity, data) {
+            Ok((packet, authenticated_data)) => RecvPacket::Inbound(InboundPacket {
+                src_address,
+                header: packet.header,
+                message: packet.message,
+                authenticated_data,
+            }),
+            Err(_) => RecvPacket::UnrecognizedFrame(UnrecognizedFrame {
+                src_address,
+                packet: data.to_vec(),
+            }),
+        };
+        let _ = self.wire_in.send(pkt).await;
+    }
+
+    /// The datagrams the handler has handed to the send task since the last call, encoded
+    /// exactly as `SendHandler` encodes them.
+    pub fn drain_wire(&mut self) -> Vec<(NodeAddress, Vec<u8>)> {
+        let mut out = vec![];
+        while let Ok(p) = self.wire_out.try_recv() {
+            let bytes = p.packet.encode(&p.node_address.node_id);
+            out.push((p.node_address, bytes));
+        }
+        out
+    }
+
+    pub fn age_sessions(&self, d: Duration) {
+        let _ = self.to_handler.send(HandlerIn::Verif(HandlerCmd::AgeSessions(d)));
+    }
+
+    /// Requests a snapshot; the slot is filled once the handler has processed the command.
+    pub fn request_snapshot(&self) -> Arc<Mutex<Option<HandlerSnapshot>>> {
+        let slot = Arc::new(Mutex::new(None));
+        let _ = self
+            .to_handler
+            .send(HandlerIn::Verif(HandlerCmd::Snapshot(slot.clone())));
+        slot
+    }
+}
+
+/// A decoded datagram (the crate's `Packet` is private).
+#[derive(Debug, Clone, PartialEq, Eq)]
+pub struct PacketView {
+    pub iv: u128,
+    pub nonce: MessageNonce,
+    pub kind: PacketKind,
+    pub message: Vec<u8>,
+}
+
+impl PacketView {
+    fn to_packet(&self) -> Packet {
+        Packet {
+            iv: self.iv,
+            header: PacketHeader {
+                message_nonce: self.nonce,
+                protocol_identity: ProtocolIdentity::default(),
+                kind: self.kind.clone(),
+            },
+            message: self.message.clone(),
+        }
+    }
+    fn from_packet(p: Packet) -> Self {
+        PacketView {
+            iv: p.iv,
+            nonce: p.header.message_nonce,
+            kind: p.header.kind,
+            message: p.message,
+        }
+    }
+    /// IV || unmasked header || auth-data, as computed by the sender.
+    pub fn authenticated_data(&self) -> Vec<u8> {
+        self.to_packet().authenticated_data()
+    }
+    pub fn encode(&self, dst_id: &NodeId) -> Vec<u8> {
+        self.to_packet().encode(dst_id)
+    }
+}
+
+/// `Packet::decode`: the packet and the authenticated bytes, or the error's debug text.
+pub fn packet_decode(local_id: &NodeId, data: &[u8]) -> Result<(PacketView, Vec<u8>), String> {
+    Packet::decode(local_id, ProtocolIdentity::default(), data)
+        .map(|(p, aad)| (PacketView::from_packet(p), aad))
+        .map_err(|e| format!("{e:?}"))
+}
+
+pub fn random_packet(src_id: &NodeId) -> PacketView {
+    PacketView::from_packet(
+        Packet::new_random(src_id, ProtocolIdentity::default()).expect("rng"),
+    )
+}
+
+pub fn whoareyou_packet(request_nonce: MessageNonce, id_nonce: [u8; 16], enr_seq: u64) -> PacketView {
+    PacketView::from_packet(Packet::new_whoareyou(
+        request_nonce,
+        id_nonce,
+        ProtocolIdentity::default(),
+        enr_seq,
+    ))
+}
+
+/// A peer-side session with the node under test, built from the crate's own `Session`.
+pub struct PeerSession(Session);
+
+impl PeerSession {
+    /// Initiator side: answers a WHOAREYOU (`challenge` = its authenticated data, 63 bytes) that
+    /// `remote` sent. The packet claims `claimed_src` as source id and is signed with
+    /// `signing_key`; session keys are derived for (`claimed_src`, `remote`).
+    pub fn answer_challenge(
+        remote: &NodeContact,
+        signing_key: &CombinedKey,
+        record: Option<Enr>,
+        claimed_src: &NodeId,
+        challenge: &[u8],
+        message: &[u8],
+    ) -> Result<(PacketView, PeerSession), String> {
+        let challenge = ChallengeData::try_from(challenge).map_err(|_| "challenge size")?;
+        let (packet, session) = Session::encrypt_with_header(
+            remote,
+            Arc::new(RwLock::new(clone_key(signing_key))),
+            record,
+            claimed_src,
+            ProtocolIdentity::default(),
+            &challenge,
+            message,
+        )
+        .map_err(|e| format!("{e:?}"))?;
+        Ok((PacketView::from_packet(packet), PeerSession(session)))
+    }
+
+    /// Responder side: accepts the handshake packet `hs` that answers our WHOAREYOU whose
+    /// authenticated data was `challenge`.
+    pub fn accept_handshake(
+        our_key: &CombinedKey,
+        our_id: &NodeId,
+        known: Option<Enr>,
+        challenge: &[u8],
+        hs: &PacketView,
+    ) -> Result<(PeerSession, Enr), String> {
+        let data = ChallengeData::try_from(challenge).map_err(|_| "challenge size")?;
+        match &hs.kind {
+            PacketKind::Handshake {
+                src_id,
+                id_nonce_sig,
+                ephem_pubkey,
+                enr_record,
+            } => Session::establish_from_challenge(
+                Arc::new(RwLock::new(clone_key(our_key))),
+                our_id,
+                src_id,
+                Challenge::verif_new(data, known),
+                id_nonce_sig,
+                ephem_pubkey,
+                enr_record.clone(),
+            )
+            .map(|(s, e)| (PeerSession(s), e))
+            .map_err(|e| format!("{e:?}")),
+            _ => Err("not a handshake packet".into()),
+        }
+    }
+
+    pub fn encrypt(&mut self, src_id: NodeId, message: &[u8]) -> Result<PacketView, String> {
+        self.0
+            .encrypt_message(src_id, message, ProtocolIdentity::default())
+            .map(PacketView::from_packet)
+            .map_err(|e| format!("{e:?}"))
+    }
+
+    /// Decrypts with the current keys only (no fallback to, or rotation of, older keys).
+    pub fn decrypt(&mut self, nonce: MessageNonce, message: &[u8], aad: &[u8]) -> Result<Vec<u8>, String> {
+        self.0
+            .decrypt_message(nonce, message, aad)
+            .map_err(|e| format!("{e:?}"))
+    }
+}
+
+fn clone_key(k: &CombinedKey) -> CombinedKey {
+    match k {
+        CombinedKey::Secp256k1(sk) => CombinedKey::Secp256k1(sk.clone()),
+        CombinedKey::Ed25519(sk) => CombinedKey::Ed25519(sk.clone()),
+    }
+}
+
+/// Signs a WHOAREYOU's challenge data like an honest initiator would, with any key.
+pub fn sign_challenge(
+    key: &CombinedKey,
+    challenge: &[u8],
+    ephem_pubkey: &[u8],
+    dst_id: &NodeId,
+) -> Result<Vec<u8>, String> {
+    let data = ChallengeData::try_from(challenge).map_err(|_| "challenge size")?;
+    crate::handler::verif_sign_nonce(key, &data, ephem_pubkey, dst_id)
+}
